@@ -186,9 +186,9 @@ class Interp:
                 return S.SymByteArray()
             a = args[0]
             if isinstance(a, int):
-                return S.SymByteArray([0] * a)
+                return S.SymByteArray([0] * S.alloc_guard(a))
             if isinstance(a, S.SymInt):
-                return S.SymByteArray([0] * Engine.current.concretize(a))
+                return S.SymByteArray([0] * S.alloc_guard(a))
             return S.SymByteArray(S.seq_items(a))
         if fn is bytes:
             if not args:
@@ -239,6 +239,8 @@ class Interp:
         if fn in (re.match, re.fullmatch, re.search) and len(args) >= 2 and isinstance(args[1], (S.SymStr, S.AnyStr)):
             flags = args[2] if len(args) > 2 else kwargs.get("flags", 0)
             return _regex_call(args[0], int(flags), fn.__name__, args[1])
+        if isinstance(bself, int) and not isinstance(bself, bool) and name == "to_bytes" and args and isinstance(args[0], (int, S.SymInt)):
+            return bself.to_bytes(S.alloc_guard(args[0]), *args[1:], **kwargs)
         if bself is int and name == "from_bytes":
             return S.int_from_bytes(*args, **kwargs)
         if isinstance(bself, (bytes, bytearray)) and isinstance(fn, types.BuiltinMethodType):
@@ -535,7 +537,9 @@ class Interp:
         if isinstance(e.op, ast.Div) and (isinstance(a, V.SymInt) or isinstance(b, V.SymInt)):
             return V.sym_truediv(a, b)
         if isinstance(e.op, ast.Mult) and isinstance(b, V.SymInt) and isinstance(a, (bytes, bytearray)):
-            return a * Engine.current.concretize(b)
+            return a * V.alloc_guard(b)
+        if isinstance(e.op, ast.Mult) and isinstance(b, int) and not isinstance(b, bool) and isinstance(a, (bytes, bytearray)) and len(a) * b > V.SYM_ALLOC_CAP:
+            V.alloc_guard(len(a) * b)
         return _BINOPS[type(e.op)](a, b)
 
     def e_UnaryOp(self, e, env, globs):
@@ -789,4 +793,8 @@ class SymUUID:
         return False
 
     def __hash__(self):
-        return hash(self.bytes_le)
+        b = self.bytes_le.realize() if isinstance(self.bytes_le, V.SymSeq) else bytes(self.bytes_le)
+        return hash(uuid.UUID(bytes_le=b))
+
+    def __bool__(self):
+        return True
